@@ -455,4 +455,3 @@ func c20Coarse(out []string) string {
 	}
 	return b.String()
 }
-
